@@ -244,7 +244,7 @@ esl_msafile_a2m_Read(ESL_MSAFILE *afp, ESL_MSA **ret_msa)
 
   /* tolerate sloppy space at start of name/desc line */
   while (n && isspace(*p)) { p++; n--; }    
-  if (*p != '>') ESL_XFAIL(eslEFORMAT, afp->errmsg, "expected A2M name/desc line starting with >");    
+  if (n == 0 || *p != '>') ESL_XFAIL(eslEFORMAT, afp->errmsg, "expected A2M name/desc line starting with >");    
 
   do {	/* for each record starting in '>': */
     p++; n--; 			/* advance past > */
